@@ -1,5 +1,244 @@
 //! Harness binary for property C15 (line protocol; see /verif/vlib/BUILDER_GUIDE.md).
+//!   ssa <hex source>  -> as in c13 (tie of Model/Scope.lean)
+//!   q <hex source>    -> `<module dump> ;; <occurrence ids> => <occ:def:refs,...>` answers of
+//!                        query::definition_location / query::all_references at every identifier
+//!                        occurrence of a local variable (real ServerState)
+//!   rn <hex source>   -> rewrite::rename at every occurrence to a fresh name, and back: model-free
+//!                        oracle (parses, same diagnostics, same def/use graph, round trip)
+use samlang_ast::Position;
+use samlang_errors::ErrorSet;
+use samlang_heap::{Heap, ModuleReference};
+use samlang_services::server_state::ServerState;
+use samlang_services::{query, rewrite};
+use samverif_harness::scopedump::Dumper;
+use samverif_harness::util::*;
+use std::collections::HashMap;
+use std::panic::{AssertUnwindSafe, catch_unwind};
+
+struct Parsed {
+  dump: String,
+  render: String,
+  /// (loc id, name, is_binder, start position)
+  occ: Vec<(usize, String, bool, Position)>,
+  posmap: HashMap<String, usize>,
+  formatted: String,
+}
+
+fn parse(src: &str) -> Option<Parsed> {
+  let mut heap = Heap::new();
+  let mref = heap.alloc_module_reference_from_string_vec(vec!["Test".to_string()]);
+  let mut errors = ErrorSet::new();
+  let m = samlang_parser::parse_source_module_from_text(src, mref, &mut heap, &mut errors);
+  if errors.has_errors() {
+    return None;
+  }
+  let mut ssa_errors = ErrorSet::new();
+  let r = samlang_checker::perform_ssa_analysis_on_module(mref, &m, &mut ssa_errors);
+  let formatted = samlang_printer::pretty_print_source_module(&heap, 100, &m);
+  let mut d = Dumper::new(&heap, mref);
+  d.module(&m);
+  let render = d.render(&r, &ssa_errors);
+  let occ = d.occurrences.iter().map(|(l, n, b)| (*l, n.clone(), *b, d.loc_list[*l].start)).collect();
+  let posmap =
+    d.loc_list.iter().enumerate().map(|(i, l)| (l.pretty_print_without_file(), i)).collect();
+  Some(Parsed { dump: d.out.clone(), render, occ, posmap, formatted })
+}
+
+fn new_state(src: &str) -> (ServerState, ModuleReference) {
+  let mut heap = Heap::new();
+  let mref = heap.alloc_module_reference_from_string_vec(vec!["Test".to_string()]);
+  let mut sources: HashMap<ModuleReference, String> =
+    samlang_parser::builtin_std_raw_sources(&mut heap).into_iter().collect();
+  sources.insert(mref, src.to_string());
+  let state = ServerState::new(heap, false, sources);
+  (state, mref)
+}
+
+fn ssa(src: &str) -> String {
+  match parse(src) {
+    None => "syntax".to_string(),
+    Some(p) => format!("{}=> {}", p.dump, p.render),
+  }
+}
+
+fn q(src: &str) -> String {
+  let p = match parse(src) {
+    None => return "syntax".to_string(),
+    Some(p) => p,
+  };
+  let (state, mref) = new_state(src);
+  if !state.get_errors(&mref).is_empty() {
+    let e = &state.get_errors(&mref)[0];
+    let d = format!("{:?}", e.detail);
+    return format!("rejected {} at {}", d.split(|c: char| !c.is_ascii_alphanumeric()).next().unwrap_or("?"), e.location.pretty_print_without_file());
+  }
+  let id = |l: &samlang_ast::Location| match p.posmap.get(&l.pretty_print_without_file()) {
+    Some(i) => i.to_string(),
+    None => format!("?{}", l.pretty_print_without_file()),
+  };
+  let mut answers = Vec::new();
+  for (locid, _, _, pos) in &p.occ {
+    let def = query::definition_location(&state, &mref, *pos).map(|l| id(&l)).unwrap_or("none".to_string());
+    let mut refs: Vec<usize> = Vec::new();
+    let mut odd = Vec::new();
+    for l in query::all_references(&state, &mref, *pos) {
+      match p.posmap.get(&l.pretty_print_without_file()) {
+        Some(i) => refs.push(*i),
+        None => odd.push(l.pretty_print_without_file()),
+      }
+    }
+    refs.sort();
+    let mut r: Vec<String> = refs.iter().map(|i| i.to_string()).collect();
+    r.extend(odd.into_iter().map(|s| format!("?{s}")));
+    answers.push(format!("{}:{}:{}", locid, def, r.join("+")));
+  }
+  let occ: Vec<String> = p.occ.iter().map(|o| o.0.to_string()).collect();
+  format!("{};; {} => {}", p.dump, occ.join(" "), answers.join(","))
+}
+
+/// names dropped from the S[..]/C[..] parts (`name=loc` -> `=loc`), so that two analyses can be
+/// compared up to the renaming
+fn nameless(render: &str) -> String {
+  let mut out = String::new();
+  let mut word = String::new();
+  for c in render.chars() {
+    if c.is_ascii_alphanumeric() || c == '_' {
+      word.push(c);
+    } else {
+      if c != '=' {
+        out.push_str(&word);
+      }
+      word.clear();
+      out.push(c);
+    }
+  }
+  out.push_str(&word);
+  // U[..] and E[..] mention names as well: keep only their sizes
+  out
+}
+
+fn graph_part(render: &str) -> String {
+  // I[..] M[..] D[..] plus nameless S/C; U and E reduced to counts
+  let parts: Vec<&str> = render.split("] ").collect();
+  let mut out = Vec::new();
+  for p in parts {
+    if p.starts_with("U[") || p.starts_with("E[") {
+      let body = &p[2..].trim_end_matches(']');
+      out.push(format!("{}#{}", &p[..1], if body.is_empty() { 0 } else { body.split(',').count() }));
+    } else if p.starts_with("S[") || p.starts_with("C[") {
+      // sort the entries of every scope after dropping the names
+      let body = &p[2..];
+      let mut ents: Vec<String> = body
+        .split(',')
+        .map(|e| {
+          let e = nameless(e);
+          let (l, r) = e.split_once(':').unwrap_or((&e, ""));
+          let mut xs: Vec<&str> = r.split('+').collect();
+          xs.sort();
+          format!("{}:{}", l, xs.join("+"))
+        })
+        .collect();
+      ents.sort();
+      out.push(format!("{}{}", &p[..2], ents.join(",")));
+    } else {
+      out.push(p.to_string());
+    }
+  }
+  out.join("] ")
+}
+
+fn rn(src: &str, include_this: bool) -> String {
+  let p = match parse(src) {
+    None => return "syntax".to_string(),
+    Some(p) => p,
+  };
+  let (mut state, mref) = new_state(src);
+  if !state.get_errors(&mref).is_empty() {
+    return "rejected".to_string();
+  }
+  let g0 = graph_part(&p.render);
+  let mut n = 0;
+  let mut sample = String::new();
+  for (k, (locid, name, _, pos)) in p.occ.iter().enumerate() {
+    if (name == "this") != include_this {
+      continue; // `this` is not a user variable; probed separately (finding C15-F1)
+    }
+    let new_name = format!("zq{k}");
+    let fail = |what: &str, extra: &str| format!("FAIL {} occ={} name={} new={} {}", what, locid, name, new_name, extra);
+    let t1 = match rewrite::rename(&mut state, &mref, *pos, &new_name) {
+      Some(t) => t,
+      None => return fail("rename-returned-none", ""),
+    };
+    let p1 = match parse(&t1) {
+      Some(x) => x,
+      None => return fail("renamed-does-not-parse", &hex(t1.as_bytes())),
+    };
+    let (mut s1, m1) = new_state(&t1);
+    if !s1.get_errors(&m1).is_empty() {
+      return fail("renamed-has-diagnostics", &hex(t1.as_bytes()));
+    }
+    if graph_part(&p1.render) != g0 {
+      return fail("def-use-graph-changed", &hex(t1.as_bytes()));
+    }
+    // every occurrence carrying the new name must be exactly the binding and its uses
+    let expect: Vec<usize> = {
+      // from the original analysis: occurrences resolving to the same definition as `locid`
+      let r = &p.render;
+      let m = &r[r.find("M[").unwrap() + 2..];
+      let m = &m[..m.find(']').unwrap()];
+      let mut def = *locid;
+      let mut pairs = Vec::new();
+      for e in m.split(',').filter(|e| !e.is_empty()) {
+        let (u, d) = e.split_once('>').unwrap();
+        let (u, d): (usize, usize) = (u.parse().unwrap(), d.parse().unwrap());
+        if u == *locid {
+          def = d;
+        }
+        pairs.push((u, d));
+      }
+      let mut v: Vec<usize> = pairs.iter().filter(|(_, d)| *d == def).map(|(u, _)| *u).collect();
+      v.push(def);
+      v.sort();
+      v.dedup();
+      v
+    };
+    let mut got: Vec<usize> = p1.occ.iter().filter(|o| o.1 == new_name).map(|o| o.0).collect();
+    got.sort();
+    if got != expect {
+      return fail("renamed-occurrences-differ", &format!("expected={expect:?} got={got:?} {}", hex(t1.as_bytes())));
+    }
+    // rename back at the same occurrence
+    let pos1 = p1.occ[k].3;
+    let t2 = match rewrite::rename(&mut s1, &m1, pos1, name) {
+      Some(t) => t,
+      None => return fail("rename-back-returned-none", &hex(t1.as_bytes())),
+    };
+    if t2 != p.formatted {
+      return fail("round-trip-differs", &hex(t2.as_bytes()));
+    }
+    if n == 0 {
+      sample = hex(t1.as_bytes());
+    }
+    n += 1;
+  }
+  format!("ok {} {}", n, if sample.is_empty() { "-".to_string() } else { sample })
+}
+
 fn main() {
-  eprintln!("c15: not implemented yet");
-  std::process::exit(2);
+  std::panic::set_hook(Box::new(|_| {}));
+  for_each_line(|line| {
+    let t: Vec<&str> = line.splitn(2, ' ').collect();
+    let arg = if t.len() > 1 { unhex_str(t[1]) } else { String::new() };
+    let r = catch_unwind(AssertUnwindSafe(|| match t[0] {
+      "ssa" => ssa(&arg),
+      "q" => q(&arg),
+      "rn" => rn(&arg, false),
+      "rnthis" => rn(&arg, true),
+      _ => "bad-op".to_string(),
+    }));
+    match r {
+      Ok(s) => s,
+      Err(e) => format!("panic {}", panic_msg(&e).replace('\n', " ")),
+    }
+  });
 }
